@@ -288,3 +288,6 @@ Qed.
 (* generated obligation: the four real key tables satisfy the round-trip side condition *)
 Lemma real_tables_rt_ok : forallb table_rt_ok real_tables = true.
 Proof. vm_compute. reflexivity. Qed.
+
+Lemma real_tables_ww_ok : forallb table_ww_ok real_tables = true.
+Proof. vm_compute. reflexivity. Qed.
